@@ -5,6 +5,7 @@ are symbolic indices into the id list (solver-enumerated), id schemes come from 
 cross-validation and replay) the same document is rendered as real CML text and parsed by the real ElementTree from an open
 file and from a path, which also validates the stub."""
 import io
+import pathlib
 import os
 import tempfile
 import types
@@ -84,6 +85,10 @@ def instances(tier, seed):
     out.append(dict(name="cml:seq:n1:b0", family='cml', scheme='seq', n=1, nb=0, cost=1))
     for k, els in enumerate([['H', 'O', 'C', 'O'], ['N', 'C', 'H'], ['Zr', 'Hf', 'O', 'Zr'], ['O', 'Zr', 'C', 'H']]):
         out.append(dict(name=f"cml:elements{k}:{'-'.join(els)}", family='cml', scheme='seq', n=len(els), nb=1, els=els, cost=5))
+    out.append(dict(name="cml:seq:n2:b1:with-2d-depiction-coordinates", family='cml', scheme='seq', n=2, nb=1, with2d=True, cost=10))
+    out.append(dict(name="cml:nonseq:n1:b0:with-2d-depiction-coordinates", family='cml', scheme='nonseq', n=1, nb=0, with2d=True, cost=5))
+    out.append(dict(name="cml:seq:n2:b1:document-in-iso-8859-1", family='cml', scheme='seq', n=2, nb=1, encoding='ISO-8859-1', cost=5))
+    out.append(dict(name="cml:rev:n2:b0:document-in-utf-16", family='cml', scheme='rev', n=2, nb=0, encoding='UTF-16', cost=5))
     out.append(dict(name="cml:strings:n3:b0", family='cml', scheme='strings', n=3, nb=0, cost=1))
     out.append(dict(name="cml:nonseq:n2:b0", family='cml', scheme='nonseq', n=2, nb=0, cost=1))
     if tier == 'thorough':
@@ -92,10 +97,11 @@ def instances(tier, seed):
     return out
 
 
-def render(doc_atoms, doc_bonds):
-    s = ['<?xml version="1.0" encoding="UTF-8"?>', '<molecule xmlns="http://www.xml-cml.org/schema">', ' <atomArray>']
+def render(doc_atoms, doc_bonds, encoding='UTF-8', title=None):
+    s = ['<?xml version="1.0" encoding="%s"?>' % encoding, '<molecule xmlns="http://www.xml-cml.org/schema"%s>' % (' title="%s"' % title if title else ''), ' <atomArray>']
     for a in doc_atoms:
-        s.append('  <atom id="%s" elementType="%s" x3="%s" y3="%s" z3="%s"/>' % (a['id'], a['elementType'], a['x3'], a['y3'], a['z3']))
+        two_d = ''.join(' %s="%s"' % (k, a[k]) for k in ('x2', 'y2', 'hydrogenCount') if k in a)
+        s.append('  <atom id="%s" elementType="%s" x3="%s" y3="%s" z3="%s"%s/>' % (a['id'], a['elementType'], a['x3'], a['y3'], a['z3'], two_d))
     s.append(' </atomArray>')
     if doc_bonds:
         s.append(' <bondArray>')
@@ -119,13 +125,20 @@ def body(ctx, p):
         atoms = [dict(id=ids[i], elementType=els[i], x3=fm.exact_token(xyz[i][0]), y3=fm.exact_token(xyz[i][1]), z3=fm.exact_token(xyz[i][2])) for i in range(n)]
     else:
         atoms = [dict(id=ids[i], elementType=els[i], x3=repr(xyz[i][0]), y3=repr(xyz[i][1]), z3=repr(xyz[i][2])) for i in range(n)]
+    if p.get('with2d'):
+        # files written by molecule editors carry the 2-D depiction next to the 3-D coordinates; the 3-D ones are the stated coordinates
+        for i, d_ in enumerate(atoms):
+            d_.update(x2=str(3.25 + i), y2=str(-1.5 - 2 * i), hydrogenCount='0')
     bonds = [dict(atomRefs2=f"{ids[int(e[0])]} {ids[int(e[1])]}", order=str(orders[j])) for j, e in enumerate(ends)]
     if ctx.sym:
         a = Atoms.load_cml(DocHandle(dict(atoms=atoms, bonds=bonds)))
         a2 = Atoms.load(DocHandle(dict(atoms=atoms, bonds=bonds)), filetype='cml')
     else:
-        text = render(atoms, bonds)
-        a = Atoms.load_cml(io.StringIO(text))
+        enc = p.get('encoding', 'UTF-8')
+        text = render(atoms, bonds, encoding=enc, title=('m\u00e9thanol d\u00e9riv\u00e9' if enc != 'UTF-8' else None))
+        # (a document declaring a two-byte encoding cannot be parsed from decoded text by expat: it is only loaded by path)
+        text_mode_ok = enc.upper() != 'UTF-16'
+        a = Atoms.load_cml(io.StringIO(text)) if text_mode_ok else None
         d = tempfile.mkdtemp()
         try:
             pth = os.path.join(d, 'm.cml')
@@ -134,10 +147,16 @@ def body(ctx, p):
             open(pth, 'w').write(decoy)
             a0 = Atoms.load(pth)
             ctx.require('decoy document loads', len(a0) == n + 1)
-            open(pth, 'w').write(text)
+            with open(pth, 'wb') as fb:
+                fb.write(text.encode(enc))      # the document's own encoding (named in its prolog / byte order mark)
             a2 = Atoms.load(pth)
-            with open(pth) as fh:
-                a3 = Atoms.load(fh, filetype='cml')
+            if text_mode_ok:
+                with open(pth, encoding=enc) as fh:
+                    a3 = Atoms.load(fh, filetype='cml')
+            else:
+                a3 = a = Atoms.load(pathlib.Path(pth))
+            a4 = Atoms.load_cml(pth)
+            ctx.require('load_cml(path) and load(path) agree', len(a2) == len(a4) and bool(np.all(a2.positions == a4.positions)))
             ctx.require('loading from a path and from an open file give the same result',
                         len(a2) == len(a3) and list(a2.elements) == list(a3.elements) and bool(np.all(a2.positions == a3.positions))
                         and np.array_equal(np.array(a2.bonds), np.array(a3.bonds)))
